@@ -361,7 +361,18 @@ class PyFacts:
             return False
 
     def annotation_class(self, m: ModInfo, ann: ast.expr | None) -> ClassInfo | None:
-        """Class named by an annotation (``T``, ``T | None``, ``Optional[T]``, string forms)."""
+        """Class named by an annotation (``T``, ``T | None``, ``Optional[T]``, string forms).  A Protocol stands for the one class
+        of the package that implements it, when there is exactly one."""
+        c = self._annotation_class(m, ann)
+        if c is not None and any(b in ("Protocol", "typing.Protocol") or b.startswith("Protocol[") for b in c.base_names):
+            names = [k for k in c.methods if not (k.startswith("__") and k.endswith("__"))]
+            impl = [k for k in self.all_classes() if k is not c and not k.module.name.startswith("scripts")
+                    and not any(b.startswith("Protocol") or b == "typing.Protocol" for b in k.base_names)
+                    and names and all(k.find_method(n_) is not None for n_ in names)]
+            return impl[0] if len(impl) == 1 else None
+        return c
+
+    def _annotation_class(self, m: ModInfo, ann: ast.expr | None) -> ClassInfo | None:
         if ann is None:
             return None
         if isinstance(ann, ast.Constant) and isinstance(ann.value, str):
